@@ -100,6 +100,9 @@ abbrev CtorArgs := Val × Val
 structure Proc where
   pid : Pid
   cls : ClassId
+  /-- the class the process was constructed as: stands for whatever of its persisted state was produced before the
+  checkpoint (it differs from `cls` only when a loader resolves the saved identifier to another class) -/
+  origin : ClassId
   init : CtorArgs
   /-- number of `Process.step()` iterations performed so far; `0` = state CREATED, nothing has run -/
   pos : Nat
@@ -118,6 +121,7 @@ structure Checkpoint where
   ident : Ident                   -- class name written into the bundle
   recorded : Option LoaderKind    -- loader class recorded in the bundle, if the save context had one
   pid : Pid
+  origin : ClassId
   init : CtorArgs
   pos : Nat
 
@@ -136,7 +140,8 @@ def Store.keys (s : Store) : List Key := s.map (·.1)
 
 /-- `Bundle(proc, save_context)` as made by the configured persister -/
 def bundle (L : Loaders) (saveLoader : Option LoaderKind) (p : Proc) : Checkpoint :=
-  { ident := L.identify (saveLoader.getD .default) p.cls, recorded := saveLoader, pid := p.pid, init := p.init, pos := p.pos }
+  { ident := L.identify (saveLoader.getD .default) p.cls, recorded := saveLoader, pid := p.pid, origin := p.origin,
+    init := p.init, pos := p.pos }
 
 /-- `_ensure_object_loader`: 1) the loader of the load context (present iff the launcher was given one), 2) the one
 recorded in the saved state, 3) the global default -/
@@ -146,7 +151,7 @@ def loadLoader (cfg : Config) (c : Checkpoint) : LoaderKind :=
   | none => c.recorded.getD .default
 
 def recreate (c : Checkpoint) (cls : ClassId) : Proc :=
-  { pid := c.pid, cls := cls, init := c.init, pos := c.pos }
+  { pid := c.pid, cls := cls, origin := c.origin, init := c.init, pos := c.pos }
 
 inductive Err where
   | missingTaskKey      -- `task[TASK_KEY]` raised KeyError
@@ -233,7 +238,7 @@ def instantiate (cfg : Config) (L : Loaders) (R : Runtime) (s : State) (processC
       match R.construct cls init with
       | .error e => .inl (Step.fail s (.ctor e) [.resolved cfg.launchLoader ident (some cls)])
       | .ok () =>
-        let p : Proc := { pid := s.next, cls := cls, init := init, pos := 0 }
+        let p : Proc := { pid := s.next, cls := cls, origin := cls, init := init, pos := 0 }
         .inr (p, { s with next := s.next + 1 }, [.resolved cfg.launchLoader ident (some cls), .constructed p])
   | _ => .inl (Step.fail s .badValue)
 
